@@ -571,10 +571,22 @@ func (fg *FG) typeFacts(c *Contract, env *Env, in ssa.Instruction, label string)
 			goal := "true"
 			src := "typefact method " + tf[1]
 			if why != "" {
-				goal = "false"
+				goal = fg.failedFact()
 				src += ": " + why
 			}
 			fg.oblig("pre", fmt.Sprintf("pre:%s#typefact.method.%s@%s", c.Key, sanitize(parts[0]), label), "", fg.guard(), goal, src, fg.posOf(instrPos(in)))
+			continue
+		}
+		if tf[0] == "initcall" {
+			parts := strings.Fields(tf[1])
+			why = fg.g.initCallFact(c.Pkg, parts[0], parts[1], parts[2:])
+			goal := "true"
+			src := "typefact initcall " + tf[1]
+			if why != "" {
+				goal = fg.failedFact()
+				src += ": " + why
+			}
+			fg.oblig("pre", fmt.Sprintf("pre:%s#typefact.initcall.%s@%s", c.Key, sanitize(parts[0]), label), "", fg.guard(), goal, src, fg.posOf(instrPos(in)))
 			continue
 		}
 		if tf[0] == "implements" {
@@ -599,7 +611,7 @@ func (fg *FG) typeFacts(c *Contract, env *Env, in ssa.Instruction, label string)
 			goal := "true"
 			src := "typefact implements " + tf[1]
 			if why != "" {
-				goal = "false"
+				goal = fg.failedFact()
 				src += ": " + why
 			}
 			fg.oblig("pre", fmt.Sprintf("pre:%s#typefact.implements.%s@%s", c.Key, sanitize(tf[1]), label), "", fg.guard(), goal, src, fg.posOf(instrPos(in)))
@@ -614,7 +626,7 @@ func (fg *FG) typeFacts(c *Contract, env *Env, in ssa.Instruction, label string)
 		goal := "true"
 		src := fmt.Sprintf("typefact %s %s", tf[0], tf[1])
 		if why != "" {
-			goal = "false"
+			goal = fg.failedFact()
 			src += ": " + why
 		}
 		fg.oblig("pre", fmt.Sprintf("pre:%s#typefact.%s.%s@%s", c.Key, tf[0], sanitize(tf[1]), label), "", fg.guard(), goal, src, fg.posOf(instrPos(in)))
@@ -1341,4 +1353,64 @@ func (g *Gen) constFuncVar(gl *ssa.Global) *ssa.Function {
 		}
 	}
 	return g.funcVars[gl]
+}
+
+// initCallFact: the package-level variable `global` of package pkgName is assigned exactly once in the
+// loaded program - by the package initialiser - and the assigned value is the result of a call of the
+// function with key fkey whose arguments are the given integer constants. "" when it is so.
+func (g *Gen) initCallFact(pkgName, global, fkey string, consts []string) string {
+	var sp *ssa.Package
+	for _, p := range g.ssaPkgs {
+		if p != nil && p.Pkg.Name() == pkgName {
+			sp = p
+		}
+	}
+	if sp == nil {
+		return "package " + pkgName + " is not loaded"
+	}
+	gl, _ := sp.Members[global].(*ssa.Global)
+	if gl == nil {
+		return "no such package-level variable"
+	}
+	var stores []*ssa.Store
+	for fn := range ssautil.AllFunctions(g.prog) {
+		for _, b := range fn.Blocks {
+			for _, in := range b.Instrs {
+				if st, ok := in.(*ssa.Store); ok && st.Addr == gl {
+					if fn.Pkg != sp || fn.Name() != "init" {
+						return "assigned outside the package initialiser (in " + fn.String() + ")"
+					}
+					stores = append(stores, st)
+				}
+			}
+		}
+	}
+	if len(stores) != 1 {
+		return fmt.Sprintf("%d assignments in the package initialiser", len(stores))
+	}
+	call, ok := stores[0].Val.(*ssa.Call)
+	if !ok || call.Call.StaticCallee() == nil {
+		return "not initialised by a static call"
+	}
+	if k := g.keyOf(call.Call.StaticCallee()); k != fkey && k != pkgName+"."+fkey {
+		return "initialised by a call of " + k
+	}
+	if len(call.Call.Args) != len(consts) {
+		return fmt.Sprintf("the call has %d arguments", len(call.Call.Args))
+	}
+	for i, a := range call.Call.Args {
+		cv, ok := a.(*ssa.Const)
+		if !ok || cv.Value == nil || cv.Value.ExactString() != consts[i] {
+			return fmt.Sprintf("argument %d is %s", i, a.String())
+		}
+	}
+	return ""
+}
+
+// failedFact: the goal of a static fact that does not hold - an unconstrained Boolean, so that the
+// obligation fails (it is not provable) without making everything after it vacuously true when the
+// checked obligation is assumed
+func (fg *FG) failedFact() string {
+	n := fg.fresh("fact.fails", "Bool")
+	return n
 }
